@@ -1,4 +1,6 @@
 package main
 
 // genAll is extended property by property (walker exit sites, layouts, hazards, guards, lock regions).
-func genAll(src, out string) {}
+func genAll(src, out string) {
+	genWalker(src, out)
+}
